@@ -34,6 +34,7 @@ pub const TYPES: &[TypeMap] = &[
     TypeMap { rust: "Partial", lean: "Semver.Partial" },
     TypeMap { rust: "VersionDiff", lean: "Semver.VersionDiff" },
     TypeMap { rust: "SemverParseError", lean: "Semver.PErr" },
+    TypeMap { rust: "SemverError", lean: "Semver.SemverError" },
     TypeMap { rust: "SemverErrorKind", lean: "Semver.EKind" },
     TypeMap { rust: "Extras", lean: "Semver.Gen.Extras" },
     TypeMap { rust: "char", lean: "Char" },
@@ -72,6 +73,12 @@ pub const VARIANTS: &[(&str, &str, &str)] = &[
     ("SemverErrorKind", "MaxLengthError", "Semver.EKind.maxLength"),
     ("SemverErrorKind", "IncompleteInput", "Semver.EKind.incompleteInput"),
     ("SemverErrorKind", "Other", "Semver.EKind.other"),
+    ("SemverErrorKind", "Context", "Semver.EKind.context"),
+    ("ErrMode", "Backtrack", "Winnow.ErrMode.Backtrack"),
+    ("ErrMode", "Cut", "Winnow.ErrMode.Cut"),
+    ("ErrMode", "Incomplete", "Winnow.ErrMode.Incomplete"),
+    ("Result", "Ok", "Except.ok"),
+    ("Result", "Err", "Except.error"),
     ("Ordering", "Less", "Ordering.lt"),
     ("Ordering", "Equal", "Ordering.eq"),
     ("Ordering", "Greater", "Ordering.gt"),
@@ -87,6 +94,9 @@ pub const STRUCT_FIELDS: &[(&str, &str, &str)] = &[
     ("SemverParseError", "input", "rest"),
     ("SemverParseError", "context", "ctx"),
 ];
+
+/// struct fields whose value is converted on the way into the model's field: (struct, field, model field, conversion)
+pub const STRUCT_FIELD_CONV: &[(&str, &str, &str, &str)] = &[("SemverError", "span", "offset", "Rust.span_offset")];
 
 /// types whose shape is not compared with the model's (generic, or generated here)
 pub const NO_SHAPE: &[&str] = &["SemverParseError", "SemverErrorKind", "SemverError", "Extras"];
@@ -224,6 +234,9 @@ pub const ITEMS: &[Item] = &[
     Parser { name: "bound_sets" },
     Closure { func: "range_set", idx: 0, lean: "Semver.Gen.range_set_check", captures: &["input"], params: &["(List Char)", "(List Semver.BoundSet)"], ret: "(Except Semver.PErr Semver.Range)" },
     Parser { name: "range_set" },
+    // ---- the public entry points
+    Method { ty: "Version", tr: "", name: "parse" },
+    Method { ty: "Range", tr: "", name: "parse" },
 ];
 
 /// functions of the crate that are deliberately not translated: they are tied to the model by the
@@ -237,7 +250,7 @@ pub const BY_CORRESPONDENCE_ONLY: &[&str] = &[
     "SemverParseError::from_error_kind", "SemverParseError::append", "SemverParseError::add_context",
     "SemverParseError::from_external_error",
     // entry points that wrap the winnow parsers, serde, FromStr
-    "Version::parse", "Version::serialize", "Version::deserialize", "Version::from_str", "Version::partial_cmp",
-    "Range::parse", "Range::serialize", "Range::deserialize", "Range::from_str", "Bound::partial_cmp",
+    "Version::serialize", "Version::deserialize", "Version::from_str", "Version::partial_cmp",
+    "Range::serialize", "Range::deserialize", "Range::from_str", "Bound::partial_cmp",
     "Operation::fmt",
 ];
